@@ -466,6 +466,12 @@ harnesses! {
     { rn_singleton_stepdown_recampaign, "C20", quick, unwind = 8,
       "RawNode single voter leading with an unpersisted entry is told of a higher term by a node outside its configuration (a removed peer still campaigning), steps down, and campaigns again before the application has processed a Ready: must not panic",
       |s| rawnode::cycle(s, &RnShape::of(RS1_LEADER), &Input::vote(7), &Input::HUP) }
+    { rn_restart, "C06,C02,C01,C07,C09", quick, unwind = 8,
+      "RawNode::new on a durable image (3 entries with symbolic terms, hard state with symbolic term / vote and commit 2, applied 1, voters {1,2,3}): term, vote, commit = the durable hard state, log untouched, follower, apply resumes after the applied index, configuration reproduced",
+      |s| rawnode::restart(s, 0, 3, 2, 1, false) }
+    { rn_restart_compacted_learner, "C06,C02,C09,C15", thorough, unwind = 8,
+      "same from a compacted image (snapshot point 4, entries 5..=6) with a learner in the configuration",
+      |s| rawnode::restart(s, 4, 2, 1, 1, true) }
     { rn_step_rejects, "C20", quick, unwind = 8,
       "RawNode::step refuses the five local message types and responses from a non-member, state untouched",
       |s| rawnode::step_rejects(s, &RnShape::of(RF)) }
